@@ -527,11 +527,10 @@ def r4_writers(chk, F):
     chk.floor(rule, "Gregorian writers", n, 8)
 
 
-def r5_accessors(chk, F):
-    rule = "C09.R5"
+def r5_accessors(chk, F, rule="C09.R5", which=(("year", 0), ("month_name", 1))):
     eng, D = ctx(F)
     cg = F.find1(self_ty="Epoch", name="compute_gregorian", trait="")
-    for name, field in (("year", 0), ("month_name", 1)):
+    for name, field in which:
         fn = F.find1(self_ty="Epoch", name=name, trait="")
         A = EpochAlg(F, eng, D)
         A.install(duration_algebra=False, opaque_conv=True)
